@@ -65,6 +65,12 @@ impl Reporter {
         }
     }
 
+    /// Verification hook: copy of the merged per-client statistics held by the reporter
+    #[cfg(feature = "verif")]
+    pub fn verif_client_stats(&self) -> Vec<ClientStats> {
+        self.client_stats.values().copied().collect()
+    }
+
     pub fn receive_client_stats(&mut self) {
         let start = Instant::now();
         let mut num_processed = 0;
